@@ -872,6 +872,111 @@ class Gen:
                 c = b"(module (memory 1) (table 1 funcref) (func $f (param $x i32) (result i32)\n" + ins + b" " + o + b"\n))"
                 self.add("grid", "wat", OWN_NAME["wat"], hexs(c), len(c), ["wat"], "wat instruction grid: %s %s" % (ins.decode(), o.decode()))
 
+    def stream_forms(self):
+        """deterministic: every statement / declaration form the parsers have a dedicated error path for, in shape- and
+        arity-wrong variants (range with 0..4 left-hand sides, for with too many clauses, several defaults, labels on
+        declarations, := with non-identifiers, bad receivers, bad type-switch guards, ...), in .wa and .wz"""
+        def put(lang, src, desc, load=False):
+            c = src.encode("utf-8", "surrogateescape") if isinstance(src, str) else src
+            eps = (["syntax", "format", "parsewa", "checkwa"] if lang == "wa" else ["syntax", "format", "parsewz", "checkwz"]) + ([LOAD_EP[lang]] if load else [])
+            self.add("forms", lang, OWN_NAME[lang], hexs(c), len(c), eps, desc)
+        n = 0
+        for form in STMT_FORMS:
+            n += 1
+            wa = render_form(form, WA_KW)
+            put("wa", "func f() {\n\t" + wa + "\n}\n", "wa statement form: " + form, load=(n % 12 == 0))
+            put("wa", "func f() {\n\t" + wa + "\n\t_ = 1\n}\n\nfunc g() {}\n", "wa statement form (followed by code): " + form)
+            wz = render_form(form, WZ_KW)
+            put("wz", "函数·甲:\n\t" + wz + "\n完毕\n", "wz statement form: " + form, load=(n % 24 == 0))
+            put("wz", "函数·甲:\n\t" + wz + "\n\t乙 := 1\n完毕\n\n函数·丙:\n完毕\n", "wz statement form (followed by code): " + form)
+        for head in KW_HEADS:
+            for tail in KW_TAILS:
+                for close in ("", "{B}{E}"):
+                    form = "{%s} %s%s" % (head, tail, close)
+                    put("wa", "func f() {\n\t" + render_form(form, WA_KW) + "\n}\n", "wa keyword x tail: " + form)
+                    put("wa", render_form(form, WA_KW) + "\nfunc g() {}\n", "wa keyword x tail at top level: " + form)
+                    put("wz", "函数·甲:\n\t" + render_form(form, WZ_KW) + "\n完毕\n", "wz keyword x tail: " + form)
+                    put("wz", render_form(form, WZ_KW) + "\n函数·丙:\n完毕\n", "wz keyword x tail at top level: " + form)
+        for k, d in enumerate(WA_DECL_FORMS):
+            put("wa", d + "\n", "wa declaration form: " + d[:40])
+            put("wa", "func a() {}\n\n" + d + "\n\nfunc main() {}\n", "wa declaration form (between functions): " + d[:40], load=(k % 10 == 0))
+        for k, d in enumerate(WZ_DECL_FORMS):
+            put("wz", d + "\n", "wz declaration form: " + d[:40])
+            put("wz", "函数·子:\n完毕\n\n" + d + "\n\n函数·主控:\n完毕\n", "wz declaration form (between functions): " + d[:40], load=(k % 10 == 0))
+
+    def stream_constbomb(self):
+        """deterministic "constant bombs": tiny inputs whose constant VALUE (or the object they size) is exponential in
+        the input length — shifts by huge counts, repeated squaring / string doubling, huge float exponents, huge array
+        lengths and make sizes, deep constant conversions — in .wa and .wz, through parser, type checker, formatter and
+        LoadProgramFile; a diagnostic or a successful check in bounded time and memory is expected"""
+        counts = ["63", "64", "1074", "1075", "10000", "1000000", "100000000", "2147483648", "4294967296", "9223372036854775807",
+                  "0x7fffffffffffffff", "18446744073709551615", "99999999999999999999999", "1<<20", "1<<62", "-1", "1.5", "1e3", "1e30", "'a'"]
+        n = [0]
+
+        def put(lang, src, desc, load=False):
+            c = src.encode()
+            n[0] += 1
+            if lang == "wa":
+                eps = ["parsewa", "checkwa", "format"] + (["loadwa"] if load else [])
+            else:
+                eps = ["parsewz", "checkwz", "format"] + (["loadwz"] if load else [])
+            self.add("constbomb", lang, OWN_NAME[lang], hexs(c), len(c), eps, desc)
+        wa_ctx = [("const", "const c = %s\n\nfunc main() {}\n"), ("typed-const", "const c: int = %s\n\nfunc main() {}\n"), ("global", "global g: int = %s\n\nfunc main() {}\n"),
+                  ("local-typed", "func main() {\n\tx: int = %s\n\t_ = x\n}\n"), ("local-define", "func main() {\n\tx := %s\n\t_ = x\n}\n"),
+                  ("u64-global", "global g: uint64 = %s\n\nfunc main() {}\n"), ("f64-local", "func main() {\n\tx: f64 = %s\n\t_ = x\n}\n"),
+                  ("argument", "func main() {\n\tprintln(%s)\n}\n"), ("array-len", "global a: [%s]byte\n\nfunc main() {}\n"), ("index", "func main() {\n\ta := []int{1}\n\t_ = a[%s]\n}\n"),
+                  ("make", "func main() {\n\ta := make([]int, %s)\n\t_ = a\n}\n"), ("case", "func main() {\n\tswitch 1 {\n\tcase %s:\n\t}\n}\n")]
+        wz_ctx = [("const", "常量·甲 = %s\n\n函数·主控:\n完毕\n"), ("typed-const", "常量·甲: 整型 = %s\n\n函数·主控:\n完毕\n"), ("global", "全局·甲: 整型 = %s\n\n函数·主控:\n完毕\n"),
+                  ("local-define", "函数·主控:\n\t甲 := %s\n\t乙 := 甲\n完毕\n"), ("array-len", "全局·甲: [%s]字节\n\n函数·主控:\n完毕\n"),
+                  ("make", "函数·主控:\n\t甲 := 构建([]整型, %s)\n完毕\n")]
+        exprs = []
+        for c in counts:
+            exprs += ["1 << %s" % c, "1 << (%s)" % c, "int64(1) << %s" % c, "uint64(1) << %s" % c, "-1 << %s" % c, "1 >> %s" % c, "1.0 << %s" % c,
+                      "1 << %s >> %s" % (c, c), "(1 << %s) >> 1" % c, "1 << %s << %s" % (c, c), "1 << (1 << %s)" % c, "1<<%s - 1<<%s" % (c, c),
+                      "(1 << %s) * (1 << %s)" % (c, c), "(1 << %s) / (1 << %s)" % (c, c), "(1 << %s) %% 7" % c, "^(1 << %s)" % c, "1 << %s == 0" % c,
+                      "f64(1 << %s)" % c, "int(1 << %s)" % c, "len(\"a\") << %s" % c, "%s" % c, "-%s" % c, "%s * %s" % (c, c), "%s * %s * %s * %s" % (c, c, c, c)]
+        floats = ["1e999999999", "1e-999999999", "1e99999999999999999999", "1e999999999 * 1e999999999", "1e999999999 / 1e-999999999", "0x1p999999999", "0x1p-999999999",
+                  "1e1000 * 1e1000 * 1e1000", "1e400", "1e-400", "1e308 * 10", "int(1e999999999)", "1e999999999 == 1e999999999", "1e999999999 - 1e999999999", "f32(1e999999999)",
+                  "1e9999", "1e99999", "1e999999", "1e9999999", "1e99999999", "1.5e999999999i", "1 / 1e999999999", "1e999999999 << 1", "1 << 1e999999999", "int(1e18) << 62",
+                  "1" + "0" * 400, "1" + "0" * 5000 + ".0", "0x" + "f" * 2000, "0b" + "1" * 3000, "1_000_000_000_000_000_000_000_000_000_000", "9" * 30 + "e" + "9" * 9]
+        k = 0
+        core = set(floats) | {"1 << %s" % c for c in counts} | {"1 << (%s)" % c for c in counts} | set(counts)
+        for e in exprs + floats:
+            # the shifts themselves, the bare counts and the float literals in every context; the derived expressions in three
+            full = e in core
+            for cname, tpl in wa_ctx:
+                if not full and cname not in ("const", "local-typed", "global"):
+                    continue
+                k += 1
+                put("wa", tpl % e, "constant bomb (wa %s): %s" % (cname, e[:60]), load=(k % 12 == 0))
+            for cname, tpl in wz_ctx:
+                if not full and cname != "const":
+                    continue
+                k += 1
+                put("wz", tpl % e, "constant bomb (wz %s): %s" % (cname, e[:60]), load=(k % 20 == 0))
+        # repeated squaring / doubling chains: the value doubles its size at every line
+        for depth in (4, 8, 16, 24, 64):
+            sq = "const a0 = 1 << 62\n" + "".join("const a%d = a%d * a%d\n" % (i + 1, i, i) for i in range(depth))
+            put("wa", sq + "\nfunc main() {}\n", "constant bomb: repeated squaring of an untyped constant, %d steps" % depth, load=True)
+            put("wa", sq + "const z = a%d >> 1 == 0\n\nfunc main() { println(a%d %% 7) }\n" % (depth, depth), "constant bomb: repeated squaring, used, %d steps" % depth, load=True)
+            fl = "const a0 = 1e300\n" + "".join("const a%d = a%d * a%d\n" % (i + 1, i, i) for i in range(depth))
+            put("wa", fl + "\nfunc main() {}\n", "constant bomb: repeated squaring of an untyped float constant, %d steps" % depth, load=True)
+            st = "const s0 = \"aaaaaaaa\"\n" + "".join("const s%d = s%d + s%d\n" % (i + 1, i, i) for i in range(depth))
+            put("wa", st + "\nfunc main() { println(len(s%d)) }\n" % depth, "constant bomb: repeated doubling of a string constant, %d steps" % depth, load=(depth <= 16))
+            sh = "const a0 = 1\n" + "".join("const a%d = a%d << a%d\n" % (i + 1, i, i) for i in range(depth))
+            put("wa", sh + "\nfunc main() {}\n", "constant bomb: chained shifts a(i+1) = a(i) << a(i), %d steps" % depth, load=True)
+            ar = "".join("type T%d [1 << 20]T%d\n" % (i + 1, i) for i in range(depth))
+            put("wa", "type T0 byte\n" + ar + "global g: T%d\n\nfunc main() {}\n" % depth, "constant bomb: nested arrays of 2^20 elements, %d levels" % depth, load=(depth <= 8))
+            wzsq = "常量·甲0 = 1 << 62\n" + "".join("常量·甲%d = 甲%d * 甲%d\n" % (i + 1, i, i) for i in range(depth))
+            put("wz", wzsq + "\n函数·主控:\n完毕\n", "constant bomb (wz): repeated squaring, %d steps" % depth, load=(depth in (8, 24)))
+        # deeply nested constant conversions
+        for depth in (10, 100, 1000, 10000):
+            for a, b in (("int", "int64"), ("f64", "int"), ("uint64", "f64"), ("int", "int")):
+                e = (a + "(" + b + "(") * depth + "1" + "))" * depth
+                put("wa", "const c = %s\n\nfunc main() {}\n" % e, "constant bomb: %d nested conversions %s(%s(…))" % (2 * depth, a, b), load=(depth == 100))
+            e = "整型(" * depth + "1" + ")" * depth
+            put("wz", "常量·甲 = %s\n\n函数·主控:\n完毕\n" % e, "constant bomb (wz): %d nested conversions" % depth)
+
     def stream_extreme(self, sizes, quick):
         """the recursion-depth probes asked for explicitly: 10^5 (thorough: 5*10^6) nested brackets / unary operators /
         blocks, through the scanners and parsers only"""
@@ -1154,6 +1259,169 @@ def dispatch_correspondence(ctx, h, model, pairs, cfg):
     return stats
 
 
+# ------------------------------------------------------------------------------------------------ parser error paths
+
+PARSER_SOURCES = ["internal/parser/parser.go", "internal/parser/w2parser"]
+
+
+def parser_error_sites():
+    """every `p.error(` / `p.errorExpected(` call and every `Bad{Stmt,Expr,Decl}` constructor in the two parsers'
+    sources (re-read on every run): [(site 'file:line', kind, regex-or-None, attributed error site)].  The regex
+    matches the error message texts the call can produce (None: a generic helper whose text comes from its caller)."""
+    files = []
+    for src in PARSER_SOURCES:
+        pth = os.path.join(vlib.REPO, src)
+        if os.path.isdir(pth):
+            files += [os.path.join(pth, f) for f in sorted(os.listdir(pth)) if f.endswith(".go") and not f.endswith("_test.go")]
+        elif os.path.exists(pth):
+            files.append(pth)
+    sites = []
+    for fp in files:
+        rel = os.path.relpath(fp, vlib.REPO)
+        lines = open(fp, encoding="utf-8", errors="replace").read().split("\n")
+        last_err = None
+        for n, l in enumerate(lines, 1):
+            t = l.strip()
+            if t.startswith("//"):
+                continue
+            if re.match(r"func ", l):
+                last_err = None
+            m = re.search(r"\bp\.(error|errorExpected)\((.*)$", t)
+            if m:
+                which, args = m.group(1), m.group(2)
+                # message argument = everything after the first top-level comma
+                depth, cut = 0, None
+                for k, ch in enumerate(args):
+                    if ch in "([":
+                        depth += 1
+                    elif ch in ")]":
+                        depth -= 1
+                    elif ch == "," and depth == 0:
+                        cut = k
+                        break
+                msg = args[cut + 1:].strip() if cut is not None else ""
+                msg = re.sub(r"\)\s*$", "", msg)
+                rx = None
+                lit = re.match(r'(?:fmt\.Sprintf\()?"((?:[^"\\]|\\.)*)"', msg)
+                if lit:
+                    text = lit.group(1).replace('\\"', '"')
+                    parts = re.split(r"%[svdq]", text)
+                    body = ".*".join(re.escape(x) for x in parts)
+                    rest = msg[lit.end():].strip()
+                    rx = "^" + ("expected " if which == "errorExpected" else "") + body
+                    if not rest.startswith("+"):
+                        if which == "errorExpected":
+                            rx += "(, found .*)?$"
+                        elif "Sprintf" not in msg:
+                            rx += "$"
+                elif which == "error" and '" in "+context' in msg.replace(" ", "").replace('"in"', '" in "'):
+                    rx = "^missing ','( before newline)? in "
+                site = "%s:%d" % (rel, n)
+                sites.append((site, which, rx, None))
+                last_err = (site, n)
+                continue
+            m = re.search(r"&ast\.(BadStmt|BadExpr|BadDecl)\{", t)
+            if m:
+                attributed = last_err[0] if last_err and n - last_err[1] <= 8 else None
+                sites.append(("%s:%d" % (rel, n), m.group(1), None, attributed))
+    return sites
+
+
+# abstract statement forms: {FOR} {RANGE} {IF} {ELSE} {ELIF} {SWITCH} {CASE} {DEFAULT} {DEFER} {BREAK} {CONTINUE} {RETURN} {TYPE}
+# are the keywords, {B} opens a block, {E} closes it, {CB}/{CE} open/close a case body
+STMT_FORMS = [
+    # range clauses with 0..4 left-hand sides, := and = forms, and non-identifier operands
+    "{FOR} {RANGE} xs{B}{E}", "{FOR} a := {RANGE} xs{B}{E}", "{FOR} a, b := {RANGE} xs{B}{E}", "{FOR} a, b, c := {RANGE} xs{B}{E}",
+    "{FOR} a, b, c, d := {RANGE} xs{B}{E}", "{FOR} a = {RANGE} xs{B}{E}", "{FOR} a, b = {RANGE} xs{B}{E}", "{FOR} a, b, c = {RANGE} xs{B}{E}",
+    "{FOR} a, b, c, d = {RANGE} xs{B}{E}", "{FOR} a.b, c[0] = {RANGE} xs{B}{E}", "{FOR} 1 := {RANGE} xs{B}{E}", "{FOR} a, 1 := {RANGE} xs{B}{E}",
+    "{FOR} a, a := {RANGE} xs{B}{E}", "{FOR} _, _ := {RANGE} xs{B}{E}", "{FOR} a := {RANGE}{B}{E}", "{FOR} {RANGE}{B}{E}", "{FOR} a, b, c := {RANGE}{B}{E}",
+    "{FOR} a := {RANGE} xs; a < 3;{B}{E}", "{FOR} a, b, c := {RANGE} xs, ys{B}{E}", "{FOR} a := {RANGE} xs, ys{B}{E}", "{FOR} a += {RANGE} xs{B}{E}",
+    "{FOR} a, b, c := {RANGE} f(){B} {BREAK} {E}", "{FOR} (a), (b), (c) = {RANGE} xs{B}{E}", "a, b, c := {RANGE} xs", "a := {RANGE} xs", "x = {RANGE} xs",
+    "{FOR} a, b, c := {RANGE} xs{B} {FOR} d, e, f := {RANGE} ys{B}{E} {E}",
+    # labels (Wa: only before for / switch), declaration errors
+    "L: {FOR}{B} {BREAK} L {E}", "L: {SWITCH} x{B}{E}", "a, b: {FOR}{B}{E}", "1: {SWITCH}{B}{E}", "f(): {FOR}{B}{E}", "a.b: {FOR}{B}{E}", "L: {FOR}{B}{E}\n\tL: {FOR}{B}{E}",
+    "L: {FOR}{B} {CONTINUE} M {E}", "L: M: {FOR}{B}{E}", "L: {FOR} a, b, c := {RANGE} xs{B}{E}", "a: int\n\ta: int", "a, a: int", "a := 1\n\ta := 2", "a, b := 1, 2\n\ta, b := 3, 4",
+    "{IF} var x = 1; x > 0{B}{E}", "{IF} var x: int = 1; x > 0{B}{E}", "x := [...]int", "f([...]int)", "_ = ([...]int)", "x := [...]int{1}[0]", "x: [...]int = [...]int{1}",
+    "func(a.b, c: int) {}", "func(a, b.c, 1: int) {}", "struct{a.b, c: int}", "x, y.z: int", "x, 1: int = 1, 2", "f().x: int",
+    # for clauses
+    "{FOR}{B}{E}", "{FOR} ;;{B}{E}", "{FOR} i := 0; i < 3; i++{B}{E}", "{FOR} i := 0; i < 3; i++; j++{B}{E}", "{FOR} i := 0; i < 3{B}{E}", "{FOR} ; ; ;{B}{E}",
+    "{FOR} i := 0{B}{E}", "{FOR} i++{B}{E}", "{FOR} i := 0; ; i := 1{B}{E}", "{FOR} x: int = 0; x < 1; x++{B}{E}", "{FOR} i < 3; i++{B}{E}", "{FOR} T{}{B}{E}",
+    "{FOR} i := 0, j := 1; i < 3; i++{B}{E}", "{FOR} ,{B}{E}", "{FOR} ;{B}{E}", "{FOR} x\n{B}{E}", "{FOR} {FOR}{B}{E}", "{FOR} a; b; c; d; e{B}{E}",
+    # if
+    "{IF}{B}{E}", "{IF} x{B}{E}", "{IF} x := 1{B}{E}", "{IF} x := 1;{B}{E}", "{IF} ; x{B}{E}", "{IF} x\n{B}{E}", "{IF} x: int = 1; x > 0{B}{E}", "{IF} x {B}{E} {ELSE} 1",
+    "{IF} x {B}{E} {ELIF}{B}{E}", "{IF} x {B}{E} {ELSE}{B}{E} {ELSE}{B}{E}", "{IF} T{}{B}{E}", "{IF} x == T{a: 1}{B}{E}", "{IF} x := T{a: 1}; x.a > 0{B}{E}", "{IF} a, b{B}{E}",
+    "{IF} a := 1, 2; a{B}{E}", "{IF} a; b; c{B}{E}", "{IF} x++{B}{E}", "{IF} x = 1{B}{E}", "{ELSE}{B}{E}", "{IF} x {B}{E} {ELSE} {FOR}{B}{E}", "{IF} (x{B}{E}", "{IF} x){B}{E}",
+    # switch / type switch
+    "{SWITCH}{B}{E}", "{SWITCH} x{B}{E}", "{SWITCH}{B}{DEFAULT}{CB}{CE}{DEFAULT}{CB}{CE}{E}", "{SWITCH} x{B}{CASE} 1{CB}{CE}{CASE} 1{CB}{CE}{DEFAULT}{CB}{CE}{DEFAULT}{CB}{CE}{E}",
+    "{SWITCH} x := y.({TYPE}){B}{E}", "{SWITCH} x = y.({TYPE}){B}{E}", "{SWITCH} x, z := y.({TYPE}){B}{E}", "{SWITCH} y.({TYPE}){B}{CASE} int, string{CB}{CE}{E}",
+    "{SWITCH} 1 := y.({TYPE}){B}{E}", "{SWITCH} x := y.({TYPE}); x{B}{E}", "{SWITCH} a; b; c{B}{E}", "{SWITCH}{B}{CASE}{CB}{CE}{E}", "{SWITCH}{B} foo {E}",
+    "{SWITCH} x{B}{CASE} 1, {CB}{CE}{E}", "{SWITCH} x := 1; x{B}{CASE} 1{CB} {BREAK} {CE}{E}", "{SWITCH} x.({TYPE}).({TYPE}){B}{E}", "{SWITCH} x := y.({TYPE}), 1{B}{E}",
+    "{SWITCH} x := y.(int){B}{E}", "{SWITCH} x += y.({TYPE}){B}{E}", "{SWITCH} y.({TYPE}){B}{CASE} 1 + 2{CB}{CE}{DEFAULT}{CB}{CE}{DEFAULT}{CB}{CE}{E}", "{CASE} 1{CB}{CE}", "{DEFAULT}{CB}{CE}",
+    "{SWITCH} T{}{B}{E}", "{SWITCH} x := y.({TYPE}){B}{CASE} {TYPE}{CB}{CE}{E}", "x.({TYPE})", "x := y.({TYPE})", "{SWITCH} (x := y.({TYPE})){B}{E}",
+    # labels, branch statements
+    "L: x := 1", "L: M: {FOR}{B} {BREAK} L {E}", "L:", "a, b: x", "1: x", "{BREAK} L", "{CONTINUE} L", "{BREAK} 1", "{BREAK} L M", "{CONTINUE}", "{BREAK}", "L: L: x = 1",
+    "L: {TYPE} T int", "L: const c = 1", "L: {DEFER} f()", "f(): x", "L: {B}{E}", "L: ;", "L: {E}", "{BREAK} {BREAK}", "L: {CASE} 1{CB}{CE}",
+    # assignments and definitions
+    "1 := 2", "a.b := 1", "a, 1 := 1, 2", "a := ", "a := 1; a := 2", "_ := 1", "a, b = 1", "a = ", "a += 1, 2", "a, b += 1", "a++ ++", "a, b++", "(a) := 1", "a[0] := 1",
+    "a, b := 1", "a, b, c := f()", ":= 1", "a :=\n1", "a, := 1", "a b := 1", "*p := 1", "f() := 1", "a := b := c", "a = b = c", "a, b := {RANGE} xs, 1", "x: = 1", "x: int = ",
+    "x, y: int = 1, 2", "x: [...]int", "x: [...]int = {1}", "x: int, y: int", "1: int", "x: 1", "x:: int", "x y", "x 1", "1 x", "x; ; y",
+    # defer, return
+    "{DEFER} x", "{DEFER} (f())", "{DEFER} func() {}", "{DEFER}", "{DEFER} f(), g()", "{DEFER} {DEFER} f()", "{DEFER} f", "{DEFER} 1", "{DEFER} x.y", "{DEFER} T{}", "{DEFER} a := f()",
+    "{RETURN} 1,", "{RETURN} ,1", "{RETURN} {RETURN}", "{RETURN} a b", "{RETURN} :=",
+    # expressions
+    "a[1:2:]", "a[1::3]", "a[::]", "a[:]", "a[]", "a[1:2:3:4]", "a[1,2]", "x.(", "x.1", "x.()", "x.", "x.(T", "x..y", "x.*y", "f(a b)", "f(a\n)", "T{a b}", "T{a\n}", "T{a: 1\n}", "(a b)",
+    "func() {}", "f(a..., b)", "f(...)", "f(a...)...", "*", "1 +", "+", "a ? b", "struct{}", "[]int", "map[int]", "map[int]string", "interface{}{}", "func(a, b) {}", "[...]int{1}", "[...]int",
+    "[1]", "[a", "a]", "(", ")", "((a)", "a)", "{", "}", "{B}{E}", "a.b.c.", "a[1", "a(1", "a{1", "T{1: }", "T{: 1}", "T{{}}", "[]T{{}, {}}", "[]T{{", "&", "&&a", "a &^", "!", "<-a", "a <- 1",
+    "a ==", "== a", "a == == b", "a.({TYPE})", "x = y.({TYPE})", "f(a, , b)", "f(,)", "f(a,)", "[]int{1, , 2}", "1.x", "1.", "'a", "\"a", "`a", "0x", "a..b", "...", "a...", "(int)(x)", "[2]int{1,2}[0]",
+    "func", "func(", "func()", "func() =>", "func() => int", "func() => (", "func(a: int) => (b: int, int) {}", "func(a, b: int, c) {}", "func(...) {}", "func(a: ...int, b: int) {}",
+    "func(a ...) {}", "func(1: int) {}", "func(a, 1: int) {}", "func(a: ) {}", "func(: int) {}", "func(a: int,, b: int) {}", "func(a: int b: int) {}", "func(a: int\n) {}",
+    "struct{1}", "struct{*[]int}", "struct{a, b}", "struct{a: }", "struct{a: int b: int}", "struct{a: int; a: int}", "struct{T; *U; p.V; *p.W; (X)}", "struct{a: int `tag` `tag2`}",
+    "interface{1}", "interface{f(}", "interface{f() g()}", "interface{T; f()}", "interface{f: int}", "map[]int", "map[int", "[]", "[2", "[2]", "*", "**T", "chan int", "x: chan int",
+    "{TYPE} T int", "{TYPE} T", "{TYPE}", "{TYPE} T :struct{}", "{TYPE} T :", "{TYPE} :struct{}", "{TYPE} T = int", "{TYPE} T, U int", "{TYPE} 1 int", "{TYPE} (T int; U)", "{TYPE} T :interface{",
+    "const c", "const c: int", "const c = ", "const (a = iota; b; c = )", "const 1 = 2", "const a, b = 1", "const a = 1, 2", "const ()", "const (", "const a: int = 1; const a: int = 2",
+]
+
+WA_KW = {"FOR": "for", "RANGE": "range", "IF": "if", "ELSE": "else", "ELIF": "else if", "SWITCH": "switch", "CASE": "case", "DEFAULT": "default",
+         "DEFER": "defer", "BREAK": "break", "CONTINUE": "continue", "RETURN": "return", "TYPE": "type", "B": " {", "E": "}", "CB": ":", "CE": ""}
+WZ_KW = {"FOR": "循环", "RANGE": "迭代", "IF": "如果", "ELSE": "否则", "ELIF": "或者", "SWITCH": "找辙", "CASE": "有辙", "DEFAULT": "没辙",
+         "DEFER": "押后", "BREAK": "跳出", "CONTINUE": "继续", "RETURN": "返回", "TYPE": "类型", "B": ":\n", "E": "\n完毕", "CB": ":\n", "CE": "\n"}
+
+WA_DECL_FORMS = [
+    "func T.f() {}", "func (t: T) f() {}", "func (t *T) f() {}", "func T.U.f() {}", "func 1.f() {}", "func *T.f() {}", "func .f() {}", "func T.() {}", "func T.f", "func f", "func",
+    "func ()", "func f() => {}", "func f() => (a: int, int) {}", "func f() => (,) {}", "func f(a: int, b) {}", "func f(...) {}", "func f(a: ...int, b: int) {}", "func f(a ...) {}",
+    "func f(1: int) {}", "func f(a, 1: int) {}", "func f(a: int) => int", "func f {}", "func f => int {}", "func f() => a: int {}", "func f[T]() {}", "func f() {} {}", "func f() }",
+    "func T.f.g() {}", "func T.1() {}", "func T..f() {}", "func [T].f() {}", "func T{}.f() {}", "func f(a: int) (b: int) {}", "func f()() {}", "func f(a: func(", "func this.f() {}",
+    "import 1", "import \"a\" =>", "import \"\\x00\"", "import \"\"", "import \"a b\"", "import (\n\"fmt\" \"os\"\n)", "import \"fmt\" => .", "import \"fmt\" => 1", "import", "import (",
+    "import \"a\nb\"", "import `a`", "import 'a'", "import \"!\"", "import \"a\\\\b\"", "import x \"fmt\"", "import \"fmt\"; import \"fmt\"", "func f() {}\nimport \"fmt\"",
+    "const c", "const c: int", "const c = ", "const (a = iota; b; c = )", "const 1 = 2", "global g", "global g:", "global g = ", "global 1 = 2", "global a, b = 1", "global a, b: int = 1, 2, 3",
+    "global (a = 1; b)", "global g: int = 1 2", "var x: int", "var x = 1", "type T", "type T :", "type :struct {}", "type T [", "type T map[]int", "type T chan int", "type T :interface { 1 }",
+    "type T :interface { f( }", "type T :struct { 1 }", "type T :struct { *[]int }", "type T :struct { a, b }", "type T :struct { a: }", "type T :struct { a: int", "type T int int",
+    "type (T int; U)", "type T = int", "type T.U int", "type T :struct { T.U }", "type T :struct { *p.T; p.T }", "type T :struct { a: int \"x\" \"y\" }",
+    "package x", "package _", "package _\nfunc main() {}", "package _;", "package", "package x; package y", "package 1", "L: type T int", "L: func f() {}", "x := 1", "for {}", "1", "}", ")", "{", "(", ";", ";;", "=> int", ": int",
+    "#wa:build", "func f() {", "func f() { ( }", "func f() { } }", "func f() { { }", "/* a", "\"a", "'", "func f() { x := `a", "func main() {}\n\x00", "\xef\xbb\xbffunc main() {}", "func main() {}\xef\xbb\xbf",
+]
+WZ_DECL_FORMS = [
+    "函数·甲:\n完毕", "函数·甲(子: 整型) => 整型:\n\t返回 子\n完毕", "函数·丙·甲:\n完毕", "函数·丙·乙·甲:\n完毕", "函数·1:\n完毕", "函数··甲:\n完毕", "函数·:\n完毕", "函数:\n完毕", "函数",
+    "函数·甲", "函数·甲(", "函数·甲(子):\n完毕", "函数·甲(子: 整型, 丑):\n完毕", "函数·甲(...):\n完毕", "函数·甲(子: ...整型, 丑: 整型):\n完毕", "函数·甲(1: 整型):\n完毕", "函数·甲 =>:\n完毕",
+    "函数·甲 => (子: 整型, 整型):\n完毕", "函数·甲 => (,):\n完毕", "函数·甲:\n", "函数·甲:\n完毕 完毕", "函数·甲\n完毕", "函数 甲:\n完毕", "函数·甲() 整型:\n完毕", "函数·*丙·甲:\n完毕",
+    "引入 1", "引入 \"a\" =>", "引入 \"\\x00\"", "引入 \"\"", "引入 \"a b\"", "引入 \"书\" => .", "引入 \"书\" => 1", "引入", "引入 (", "引入 `a`", "引入 \"!\"", "引入:\n\"书\"\n完毕", "引入:\n1\n完毕",
+    "常量·甲", "常量·甲: 整型", "常量·甲 = ", "常量·1 = 2", "常量:\n\t甲 = 1\n\t乙\n\t丙 = \n完毕", "常量:\n", "常量", "常量·", "常量 甲 = 1", "全局·甲", "全局·甲:", "全局·甲 = ", "全局·1 = 2",
+    "全局:\n\t甲 = 1\n\t乙\n完毕", "全局·甲, 乙 = 1", "全局", "类型·甲", "类型·甲:", "类型·甲: 整型", "类型·甲: [", "类型·甲: 字典[]整型", "类型·: 整型", "类型·1: 整型", "类型", "结构·甲:\n\t1\n完毕",
+    "结构·甲:\n\t乙, 丙\n完毕", "结构·甲:\n\t乙:\n完毕", "结构·甲:\n\t乙: 整型", "结构·甲", "结构", "结构·:\n完毕", "结构·1:\n完毕", "结构·甲:\n\t*[]整型\n完毕", "接口·甲:\n\t1\n完毕", "接口·甲:\n\t乙(\n完毕",
+    "接口·甲:\n\t乙() 丙()\n完毕", "接口·甲", "接口", "完毕", "甲 := 1", "循环:\n完毕", "1", ")", "(", ":", "·", "··", "=> 整型", "注:", "注: 甲\n函数·甲:\n完毕", "#凹:构建", "函数·甲:\n\t(\n完毕",
+    "函数·甲:\n\t区块:\n完毕", "函数·甲:\n完毕\n完毕", "\"a", "'", "函数·甲:\n\t乙 := `a", "函数·主控:\n完毕\n\x00", "\xef\xbb\xbf函数·主控:\n完毕",
+]
+KW_TAILS = ["", "x", "1", "x, y", "x := 1", "x, y, z := {RANGE} a", "x, y, z = {RANGE} a", "{B}", "{E}", "(", ")", ";", ":", ":=", "=", "=> x", "x.({TYPE})", "...", "x; y; z; w", "{FOR}", "{CASE}"]
+KW_HEADS = ["FOR", "RANGE", "IF", "ELSE", "ELIF", "SWITCH", "CASE", "DEFAULT", "DEFER", "BREAK", "CONTINUE", "RETURN", "TYPE"]
+
+
+def render_form(form, kw):
+    out = form
+    for k, v in kw.items():
+        out = out.replace("{" + k + "}", v)
+    return out
+
+
 # ------------------------------------------------------------------------------------------------ the check
 
 # a time-out is keyed by the size class of the input: "hang" (<= 1 KiB: an endless loop or exponential behaviour),
@@ -1184,7 +1452,12 @@ def timeout_key(rec, size):
     if d and d[0] in ("synok", "synerr"):
         d = d[1:]
     cls = "hang" if size <= 1024 else ("blowup" if size <= 65536 else "slow")
-    return "%s:%s" % (cls, stage_of(ep, pkg_of(d[0] if d else "?")))
+    site = d[0] if d else "?"
+    key = "%s:%s" % (cls, stage_of(ep, pkg_of(site)))
+    if pkg_of(site) == "internal/constant":
+        # big-number arithmetic: the sampled innermost frame is stable there (BinaryOp, Shift, …) and names the operation
+        key += ":" + site
+    return key
 
 
 def record_key(rec, size):
@@ -1298,6 +1571,8 @@ def run(ctx):
     if quick:
         gen.stream_seeds(load_every=8)
         gen.stream_names()
+        gen.stream_forms()
+        gen.stream_constbomb()
         gen.stream_grid()
         gen.stream_token_mut(2200, 0.08)
         gen.stream_byte_mut(1400, 0.06)
@@ -1307,6 +1582,8 @@ def run(ctx):
     else:
         gen.stream_seeds(load_every=1)
         gen.stream_names()
+        gen.stream_forms()
+        gen.stream_constbomb()
         gen.stream_grid()
         gen.stream_token_mut(40000, 0.05)
         gen.stream_byte_mut(25000, 0.05)
@@ -1332,6 +1609,59 @@ def run(ctx):
         want = "lang=unknown fmt=" + ("X" if not cfg["sound"] else {"error": "R", "passThrough": "P", "formatWa": "A", "formatWz": "Z"}[cfg["fmtDefault"]])
         if mo.strip() != want:
             ctx.proof["broken"].append({"theorem": "witness replay C08", "why": "model says %r for FormatCode(\"x.txt\",\"1\"), expected %r" % (mo.strip(), want)})
+
+    # ---- 3b. coverage of the parsers' dedicated error paths by the deterministic "forms" stream: every p.error /
+    #          p.errorExpected call and every Bad{Stmt,Expr,Decl} constructor in the parser sources (re-read now) against
+    #          the error messages / Bad nodes the real parsers produce for the generated forms
+    t3 = time.time()
+    sites = parser_error_sites()
+    bad_parse = {r[0] for r in recs if r[2] in BAD and r[1] in ("parsewa", "parsewz")}
+    form_ids = [i for i in gen.order if gen.inputs[i]["stream"] == "forms" and i not in bad_parse and gen.inputs[i]["spec"]]
+    eops = ["%s %s" % (gen.inputs[i]["lang"], spec_hex(gen.inputs[i]["spec"])) for i in form_ids]
+    msgs, badnodes, errs_panics = {"wa": {}, "wz": {}}, {"BadStmt": 0, "BadExpr": 0, "BadDecl": 0}, 0
+    if eops:
+        rc, eout, eerr = ctx.run_bin(h, ["errs"], input_text="\n".join(eops) + "\n", timeout=1800)
+        elines = eout.split("\n")[:len(eops)]
+        for i, l in zip(form_ids, elines):
+            f = l.split(" ", 2)
+            if l.startswith("PANIC") or len(f) < 2:
+                errs_panics += 1
+                continue
+            for part in f[1].split(","):
+                k, _, v = part.partition(":")
+                if v.isdigit():
+                    badnodes[{"S": "BadStmt", "E": "BadExpr", "D": "BadDecl"}.get(k, k)] = badnodes.get({"S": "BadStmt", "E": "BadExpr", "D": "BadDecl"}.get(k, k), 0) + int(v)
+            for m in (f[2].split("\x1f") if len(f) > 2 else []):
+                m = m.replace("\x1e", " ")
+                if m:
+                    msgs[gen.inputs[i]["lang"]].setdefault(m, i)
+    covered, uncovered = {}, []
+    for site, kind, rx, att in sites:
+        if rx is None:
+            continue
+        lang = "wz" if "w2parser" in site else "wa"
+        hit = next((m for m in msgs[lang] if re.search(rx, m)), None)
+        if hit is None:
+            uncovered.append({"site": site, "message_pattern": rx})
+        else:
+            covered[site] = hit
+    bad_sites = [x for x in sites if x[1].startswith("Bad")]
+    site_cov = {
+        "error_call_sites": sum(1 for x in sites if x[1] in ("error", "errorExpected")),
+        "error_call_sites_with_own_message": sum(1 for x in sites if x[2]),
+        "covered": len(covered), "uncovered": uncovered,
+        "bad_node_sites": len(bad_sites),
+        "bad_node_sites_behind_a_covered_error_call": sum(1 for x in bad_sites if x[3] in covered),
+        "bad_node_sites_unattributed": [x[0] for x in bad_sites if x[3] is None],
+        "bad_nodes_produced": badnodes, "distinct_error_messages": {k: len(v) for k, v in msgs.items()},
+        "forms_inputs": len(form_ids), "panics_in_message_pass": errs_panics,
+        "method": "sites are re-read from internal/parser/parser.go and internal/parser/w2parser/*.go on every run; a site counts as covered "
+                  "when some input of the deterministic forms stream makes the real parser (AllErrors|ParseComments|DeclarationErrors) "
+                  "emit an error message matching the site's message text (sites sharing a text are covered together)",
+    }
+    if uncovered:
+        ctx.notes.append("parser error sites not reached by the forms stream: " + ", ".join(u["site"] for u in uncovered))
+    timing["error_site_coverage_s"] = round(time.time() - t3, 1)
 
     # ---- 4. oracle: every panic / exit / fatal error / time-out is a violation, keyed by root cause
     recs, folded = fold_timeouts(recs)
@@ -1481,7 +1811,7 @@ def run(ctx):
         s = gen.inputs[i]["stream"]
         streams[s] = streams.get(s, 0) + 1
     samples = []
-    for s in ("tok", "byte", "trunc", "name", "grid", "deep"):
+    for s in ("tok", "byte", "trunc", "name", "forms", "constbomb", "grid", "deep"):
         ex = [i for i in gen.order if gen.inputs[i]["stream"] == s][:2]
         for i in ex:
             samples.append({"id": i, "desc": gen.inputs[i]["desc"], "size": gen.inputs[i]["size"],
@@ -1502,6 +1832,7 @@ def run(ctx):
         "findings": findings,
         "timeouts_folded_into_earlier_stage": folded,
         "excluded_entry_points": excluded,
+        "parser_error_sites": site_cov,
         "dispatch": dstats,
         "dispatch_tables": cfg,
         "scaling_top": scaling[:15],
